@@ -769,6 +769,45 @@ func c04Explore(c *vlib.Ctx, try0 func(k c04Case)) {
 		try(c04Make(sws[ix[0]], []int{0}, []int{s[0]}, q, r, 0, 0, vias[int(i)%len(vias)]))
 	})
 	c.States.Add(p6.Count())
+	// P8: `*` in the company of every other atom of its list (before it, after it, around it): a name that sorts
+	// before `*` (! # $ % & ') or after it, a second `*`, a defective name - each is judged by its own rule
+	type wc struct{ field, idx, shape int }
+	var wcs []wc
+	starOf := func(atoms []ref.NameAtom) int {
+		for i, a := range atoms {
+			if a.Star {
+				return i
+			}
+		}
+		return -1
+	}
+	stars := [4]int{-1, starOf(c04MA), starOf(c04QA), starOf(c04RA)}
+	for f, n := range []int{0, len(c04MA), len(c04QA), len(c04RA)} {
+		for i := 0; i < n && stars[f] >= 0; i++ {
+			for sh := 0; sh < 3; sh++ {
+				wcs = append(wcs, wc{f, i, sh})
+			}
+		}
+	}
+	p8 := vlib.Product{Sizes: []int{len(sws), len(wcs)}}
+	c.ParRange(p8.Count(), 64, "C04/C05 wildcard companions", func(i int64) {
+		var tmp [4]int
+		ix := p8.At(i, tmp[:0])
+		w := wcs[ix[1]]
+		st := stars[w.field]
+		lst := [][]int{{st, w.idx}, {w.idx, st}, {w.idx, st, st, w.idx}}[w.shape]
+		m, q, r := []int{0}, []int{0}, []int{0}
+		switch w.field {
+		case 1:
+			m = lst
+		case 2:
+			q = lst
+		case 3:
+			r = lst
+		}
+		try(c04Make(sws[ix[0]], []int{0}, m, q, r, 0, 0, vias[int(i)%len(vias)]))
+	})
+	c.States.Add(p8.Count())
 	c.Set("names_shared_between_request_and_response_tables", len(shared))
 	c.Set("atoms", map[string]int{"origins": len(c04OA), "methods": len(c04MA), "request_headers": len(c04QA), "response_headers": len(c04RA)})
 	c.Set("products", map[string]any{"P1_switches_x_origin_lists": p1.Sizes, "P1_max_list_len": L, "P2_all_fields": p2.Sizes, "P3_single_atoms": p3.Sizes})
